@@ -4,8 +4,13 @@ Regenerate with tools/c09_repin.py after the proofs have been adapted to a new s
 
 PINNED = {}
 
-PINNED['rleInit'] = '''/-- body of loop 1 of `RLEColumn.__init__`: `for value in self.values[1:]` -/
-def rleInit_loop1 (eq : α → α → Bool)  (st : α × Nat × List Nat × List α) (item : α) : α × Nat × List Nat × List α :=
+PINNED['rleInit'] = '''/-- the run test of `RLEColumn.__init__` (`if value == prev_value:`, the increment of `run_length` in the `if` branch): a value
+extends the current run exactly when this holds -/
+def rleExtends (eq : α → α → Bool) (sameClass : α → α → Bool) (value prev_value : α) : Bool :=
+  eq value prev_value
+
+/-- body of loop 1 of `RLEColumn.__init__`: `for value in self.values[1:]` -/
+def rleInit_loop1 (eq : α → α → Bool) (sameClass : α → α → Bool)  (st : α × Nat × List Nat × List α) (item : α) : α × Nat × List Nat × List α :=
   match st, item with
   | (prev_value, run_length, run_lengths, run_values), value =>
     match (if eq value prev_value then
@@ -21,7 +26,7 @@ def rleInit_loop1 (eq : α → α → Bool)  (st : α × Nat × List Nat × List
     (prev_value, run_length, run_lengths, run_values)
 
 /-- `RLEColumn.__init__`, translated statement by statement -/
-def rleInit (eq : α → α → Bool) (self_values : List α) : Option (List α × List Nat) :=
+def rleInit (eq : α → α → Bool) (sameClass : α → α → Bool) (self_values : List α) : Option (List α × List Nat) :=
   let self_lengths : List Nat := [];
   let run_values : List α := [];
   let run_lengths : List Nat := [];
@@ -31,7 +36,7 @@ def rleInit (eq : α → α → Bool) (self_values : List α) : Option (List α 
   else
     (self_values[0]?).bind fun prev_value =>
     let run_length : Nat := 1;
-    match List.foldl (rleInit_loop1 eq) (prev_value, run_length, run_lengths, run_values) (self_values.drop 1) with
+    match List.foldl (rleInit_loop1 eq sameClass) (prev_value, run_length, run_lengths, run_values) (self_values.drop 1) with
     | (prev_value, run_length, run_lengths, run_values) =>
     let run_values : List α := run_values ++ [prev_value];
     let run_lengths : List Nat := run_lengths ++ [run_length];
